@@ -40,7 +40,8 @@ from deepali.utils.imageio.meta import read_meta_image
 SUFFIXES = [".mha", ".mhd", ".nii", ".nii.gz", ".hdr", ".img", ".img.gz", ".nrrd", ".nhdr", ".mnc", ".vtk", ".hdf5"]
 # what a format can represent (probed with this SimpleITK build): payloads are adapted, not the oracle
 CAPS = {".vtk": {"oriented": False}, ".hdf5": {"max_channels": 1}}
-STEMS = ["s0", "s 1", "s%202"]  # plain, with a space, with a literal percent escape (all valid POSIX names; '#' and '?' are
+SUBDIR = "sub"  # a second directory holding a file of the same base name: the same relative spelling from two working directories
+STEMS = ["s0", "s 1", "s%202", SUBDIR + "/s0"]  # plain, with a space, with a literal percent escape (all valid POSIX names; '#' and '?' are
 # not used: deepali's path -> URI -> urlsplit pipeline drops everything after them, see DESIGN.md section 4.3)
 DTYPES = ["uint8", "int16", "int32", "float32", "float64"]
 NATIVE_BYTES = (".mha",)
@@ -241,6 +242,7 @@ class IoWorld:
         self.sc = scenario
         base = "/dev/shm" if os.path.isdir("/dev/shm") and os.access("/dev/shm", os.W_OK) else None
         self.root = tempfile.mkdtemp(prefix="iosim-", dir=base)
+        os.mkdir(os.path.join(self.root, SUBDIR))
         self.rec: Dict[str, Record] = {}
         self.c = {k: Counter() for k in ("faults", "probes", "checks", "ops")}
         self.states = set()
@@ -258,9 +260,23 @@ class IoWorld:
         shutil.rmtree(self.root, ignore_errors=True)
 
     # ------------------------------------------------------------ file system observation
+    def names(self) -> List[str]:
+        """Relative names of every file of the simulated namespace (the run directory and its one subdirectory)."""
+        out = [n for n in os.listdir(self.root) if n != SUBDIR]
+        sub = os.path.join(self.root, SUBDIR)
+        if os.path.isdir(sub):
+            out += [SUBDIR + "/" + n for n in os.listdir(sub)]
+        return sorted(out)
+
     def snapshot(self) -> Dict[str, str]:
         out = {}
-        for name in sorted(os.listdir(self.root)):
+        names = sorted(os.listdir(self.root))
+        sub = os.path.join(self.root, SUBDIR)
+        if os.path.isdir(sub):
+            names += [SUBDIR + "/" + n for n in sorted(os.listdir(sub))]
+        for name in names:
+            if name == SUBDIR:
+                continue
             p = os.path.join(self.root, name)
             if os.path.isfile(p):
                 with open(p, "rb") as f:
@@ -314,7 +330,7 @@ class IoWorld:
         if form == "uri":
             return "file://" + p, None
         if form == "rel":
-            return name, self.root  # relative to a changed cwd
+            return os.path.basename(name), os.path.dirname(p)  # relative to a changed cwd (the directory of the file)
         return p, None
 
     def with_cwd(self, cwd, fn):
@@ -398,6 +414,12 @@ SIBLINGS = {
 class _Ops:
     def stem_of(self, name: str) -> str:
         return name[: -len(suffix_of(name))]
+
+    def stem_of_safe(self, name: str) -> Optional[str]:
+        try:
+            return self.stem_of(name)
+        except HarnessError:
+            return None  # a sibling data file (.raw, .zraw, ...)
 
     def family_existing(self, name: str) -> set:
         stem, suf = self.stem_of(name), suffix_of(name)
@@ -820,8 +842,24 @@ class _Gen:
         return {"D": D, "C": C, "dtype": dtype, "size": size, "grid": gd, "seed": rng.subseed(), "amp": rng.round(0.2, 2.0, 2),
                 "extremes": bool(kind != "flow" and rng.chance(0.3)), "align_corners": bool(rng.chance(0.7)), "unit": unit}
 
+    def twin_of(self, name: str) -> str:
+        """The file of the same base name in the other directory of the namespace."""
+        return name[len(SUBDIR) + 1:] if name.startswith(SUBDIR + "/") else SUBDIR + "/" + name
+
+    def rel_bias(self, rng: Rng, name: str, form: str) -> str:
+        """The same relative spelling used from two working directories: whatever remembers a path string is wrong then."""
+        if self.sc["n_stems"] >= 4 and os.path.isfile(self.full(self.twin_of(name))) and rng.chance(0.6):
+            return "rel"
+        return form
+
     def pick_name(self, rng: Rng, collide: bool) -> str:
-        existing = sorted(os.listdir(self.root))
+        existing = self.names()
+        if self.sc["n_stems"] >= 4 and existing and rng.chance(0.25):
+            # a file of the same base name in the other directory
+            cands = [self.twin_of(n) for n in existing if self.stem_of_safe(n) in ("s0", SUBDIR + "/s0")]
+            cands = [c for c in cands if self.sc["suffix_on"].get(suffix_of(c), True)]
+            if cands:
+                return rng.choice(cands)
         stems_used = sorted({n.split(".")[0] for n in existing})
         if collide and stems_used and rng.chance(0.7):
             stem = rng.choice(stems_used)
@@ -838,7 +876,7 @@ class _Gen:
         sc = self.sc
         W = dict(sc["weights"])
         acked = sorted(p for p, r in self.rec.items() if r.acked)
-        present = sorted(n for n in os.listdir(self.root) if any(n.endswith(s) for s in SUFFIXES))
+        present = sorted(n for n in self.names() if any(n.endswith(s) for s in SUFFIXES))
         if not acked:
             W["dread"] *= 0.2
             W["sread"] *= 0.2
@@ -877,7 +915,7 @@ class _Gen:
             desc["nonfinite"] = bool(desc.get("extremes") and suf_ not in NIFTI_FAMILY)
             op = {"op": kind, "name": name, "kind": pk, "desc": desc, "compress": bool(rng.chance(0.5))}
             if kind == "dwrite":
-                op["form"] = rng.weighted([("str", 4), ("path", 2), ("uri", 1), ("rel", 1)])
+                op["form"] = self.rel_bias(rng, name, rng.weighted([("str", 4), ("path", 2), ("uri", 1), ("rel", 1)]))
                 if pk == "flow":
                     op["axes"] = rng.choice(["world", "grid", "cube", "cube_corners", "default"])
                     if rng.chance(0.15):
@@ -908,7 +946,7 @@ class _Gen:
                 if suffix_of(name) == ".mha":
                     entries += [("meta_bytes", 1), ("meta_reader", 2 if sc["faults"]["short_io"] else 0.5)]
                 op["entry"] = rng.weighted(entries)
-                op["form"] = rng.weighted([("str", 4), ("path", 2), ("uri", 0 if op["entry"] == "Grid.from_file" else 1), ("rel", 1)])
+                op["form"] = self.rel_bias(rng, name, rng.weighted([("str", 4), ("path", 2), ("uri", 0 if op["entry"] == "Grid.from_file" else 1), ("rel", 1)]))
                 # read - overwrite - read again through the very same entry point and path form: what a reader that
                 # remembers something about a path (a cache, a kept handle) gets wrong
                 seen = self.read_how.get(name)
@@ -951,7 +989,7 @@ class IoEngine:
             if rng.chance(0.3):
                 weights[k] *= rng.choice([0.3, 2.0])
         return {"profile": profile or "C18", "tier": tier, "faults": faults, "suffix_on": suffix_on, "weights": weights,
-                "n_stems": rng.choice([1, 2, 3]), "length": rng.randint(6, 20 if tier == "quick" else 30)}
+                "n_stems": rng.choice([1, 2, 3, 4, 4]), "length": rng.randint(6, 20 if tier == "quick" else 30)}
 
     def new_world(self, scenario) -> World:
         return World(self, scenario)
